@@ -263,8 +263,70 @@ func lastInstr(b *ssa.BasicBlock) ssa.Instruction {
 }
 
 type wstate struct {
-	b *ssa.BasicBlock
-	i int
+	b   *ssa.BasicBlock
+	i   int
+	via *ssa.BasicBlock // predecessor we came from; tracked only for blocks that branch on a bool phi
+}
+
+// phiCond: the block ends in `if φ` (possibly negated) with φ a bool phi defined in this block —
+// the shape go/ssa gives to `a && b` / `a || b` in value position (switch cases, assignments).
+func phiCond(b *ssa.BasicBlock) (*ssa.Phi, bool) {
+	iff, ok := lastInstr(b).(*ssa.If)
+	if !ok {
+		return nil, false
+	}
+	cond, neg := iff.Cond, false
+	for {
+		if u, ok := cond.(*ssa.UnOp); ok && u.Op == token.NOT {
+			cond, neg = u.X, !neg
+			continue
+		}
+		break
+	}
+	ph, ok := cond.(*ssa.Phi)
+	if !ok || ph.Block() != b {
+		return nil, false
+	}
+	return ph, neg
+}
+
+// mkState: state for entering succ from b.
+func mkState(b, succ *ssa.BasicBlock) wstate {
+	if lastInstr(succ) != nil {
+		if _, ok := lastInstr(succ).(*ssa.If); ok {
+			if ph, _ := phiCond(succ); ph != nil {
+				return wstate{succ, 0, b}
+			}
+		}
+	}
+	return wstate{succ, 0, nil}
+}
+
+// feasible: may the walker leave b through successor k, given it entered b from via?  When b
+// branches on a bool phi whose incoming value from via is a constant, only one successor is.
+func feasible(b *ssa.BasicBlock, k int, via *ssa.BasicBlock) bool {
+	if via == nil {
+		return true
+	}
+	ph, neg := phiCond(b)
+	if ph == nil {
+		return true
+	}
+	for i, pred := range b.Preds {
+		if pred != via {
+			continue
+		}
+		c, ok := ph.Edges[i].(*ssa.Const)
+		if !ok || c.Value == nil || c.Value.Kind() != constant.Bool {
+			return true
+		}
+		val := constant.BoolVal(c.Value) != neg
+		if val {
+			return k == 0
+		}
+		return k == 1
+	}
+	return true
 }
 
 // Reach: the first item matching target that can be reached from the region starts without
@@ -274,7 +336,7 @@ func (r *Region) Reach(target Ev, stop Ev) (Item, []*ssa.BasicBlock) {
 	parent := map[*ssa.BasicBlock]*ssa.BasicBlock{}
 	var stack []wstate
 	for _, s := range r.Starts {
-		stack = append(stack, wstate{s.B, s.I})
+		stack = append(stack, wstate{s.B, s.I, nil})
 	}
 	for len(stack) > 0 {
 		s := stack[len(stack)-1]
@@ -303,6 +365,9 @@ func (r *Region) Reach(target Ev, stop Ev) (Item, []*ssa.BasicBlock) {
 			continue
 		}
 		for k, succ := range b.Succs {
+			if !feasible(b, k, s.via) {
+				continue
+			}
 			if r.Cut != nil && r.Cut(b, succ) {
 				continue
 			}
@@ -327,7 +392,7 @@ func (r *Region) Reach(target Ev, stop Ev) (Item, []*ssa.BasicBlock) {
 			if _, ok := parent[succ]; !ok && succ != b {
 				parent[succ] = b
 			}
-			stack = append(stack, wstate{succ, 0})
+			stack = append(stack, mkState(b, succ))
 		}
 	}
 	return Item{}, nil
@@ -340,7 +405,7 @@ func (r *Region) Escape(avoid Ev) (bool, []*ssa.BasicBlock) {
 	parent := map[*ssa.BasicBlock]*ssa.BasicBlock{}
 	var stack []wstate
 	for _, s := range r.Starts {
-		stack = append(stack, wstate{s.B, s.I})
+		stack = append(stack, wstate{s.B, s.I, nil})
 	}
 	for len(stack) > 0 {
 		s := stack[len(stack)-1]
@@ -369,6 +434,9 @@ func (r *Region) Escape(avoid Ev) (bool, []*ssa.BasicBlock) {
 			continue
 		}
 		for k, succ := range b.Succs {
+			if !feasible(b, k, s.via) {
+				continue
+			}
 			if r.Cut != nil && r.Cut(b, succ) {
 				continue
 			}
@@ -393,7 +461,7 @@ func (r *Region) Escape(avoid Ev) (bool, []*ssa.BasicBlock) {
 			if _, ok := parent[succ]; !ok && succ != b {
 				parent[succ] = b
 			}
-			stack = append(stack, wstate{succ, 0})
+			stack = append(stack, mkState(b, succ))
 		}
 	}
 	return false, nil
@@ -434,7 +502,7 @@ func (r *Region) Find(ev Ev) []Item {
 	seen := map[wstate]bool{}
 	var stack []wstate
 	for _, s := range r.Starts {
-		stack = append(stack, wstate{s.B, s.I})
+		stack = append(stack, wstate{s.B, s.I, nil})
 	}
 	for len(stack) > 0 {
 		s := stack[len(stack)-1]
@@ -460,6 +528,9 @@ func (r *Region) Find(ev Ev) []Item {
 			continue
 		}
 		for k, succ := range b.Succs {
+			if !feasible(b, k, s.via) {
+				continue
+			}
 			if r.Cut != nil && r.Cut(b, succ) {
 				continue
 			}
@@ -482,7 +553,7 @@ func (r *Region) Find(ev Ev) []Item {
 			if r.Allowed != nil && !r.Allowed[succ] {
 				continue
 			}
-			stack = append(stack, wstate{succ, 0})
+			stack = append(stack, mkState(b, succ))
 		}
 	}
 	return out
